@@ -90,9 +90,9 @@ pub proof fn lemma_resp_block_front(hs: Seq<HV>)
 pub open spec fn with_headers(st: RespS, hs: Seq<HV>) -> RespS { RespS { version: st.version, code: st.code, reason: st.reason, headers: hs, parts: st.parts } }
 
 // header lines are read one by one; the call on what follows them decides the result
-pub proof fn lemma_resp_read_headers(todo: Seq<HV>, x: Seq<u8>, iter: nat, st: RespS)
+pub proof fn lemma_resp_read_headers(todo: Seq<HV>, x: Seq<u8>, iter: nat, st: RespS, br: int, total: int)
     requires iter > 0, forall|i: int| 0 <= i < todo.len() ==> wf_resp_header(#[trigger] todo[i]),
-    ensures resp_read(utf8_bytes(resp_block_f(todo)) + x, iter, st) == resp_read(x, iter + todo.len(), with_headers(st, st.headers + todo)),
+    ensures resp_read(utf8_bytes(resp_block_f(todo)) + x, iter, st, br, total) == resp_read(x, iter + todo.len(), with_headers(st, st.headers + todo), br + utf8_bytes(resp_block_f(todo)).len(), total),
     decreases todo.len()
 {
     if todo.len() == 0 {
@@ -125,7 +125,8 @@ pub proof fn lemma_resp_read_headers(todo: Seq<HV>, x: Seq<u8>, iter: nat, st: R
         assert(resp_header_line(s) == Some(h));
         let st2 = with_headers(st, st.headers.push(h));
         assert(forall|i: int| 0 <= i < rest.len() ==> wf_resp_header(#[trigger] rest[i])) by { assert forall|i: int| 0 <= i < rest.len() implies wf_resp_header(#[trigger] rest[i]) by { assert(rest[i] == todo[i + 1]); } }
-        lemma_resp_read_headers(rest, x, iter + 1, st2);
+        lemma_resp_read_headers(rest, x, iter + 1, st2, br + line.len(), total);
+        assert(utf8_bytes(resp_block_f(todo)).len() == line.len() + utf8_bytes(resp_block_f(rest)).len());
         assert(st.headers.push(h) + rest =~= st.headers + todo);
         assert(line.len() != 0);
     }
@@ -179,7 +180,7 @@ pub open spec fn wf_single(hs: Seq<HV>, p: ContentRange) -> bool {
 // the headers followed by the three framing headers, and one part holding exactly the body bytes with the media type written.
 pub proof fn theorem_response_roundtrip_single(v: Seq<char>, code: i16, reason: Seq<char>, hs: Seq<HV>, p: ContentRange, method: Seq<char>)
     requires wf_status(v, code, reason), wf_single(hs, p), !bodiless(method),
-    ensures resp_read(response_bytes(v, code, reason, hs, seq![p], method), 0, empty_resps())
+    ensures resp_read(response_bytes(v, code, reason, hs, seq![p], method), 0, empty_resps(), 0, response_bytes(v, code, reason, hs, seq![p], method).len() as int)
         == RespRead::Done(true,
             RespS { version: v, code: code as int, reason: reason, headers: hs + framing(seq![p]),
                     parts: seq![CRV { unit: s_bytes(), start: 0, end: p.body@.len() as int, size: dec(p.body@.len()), body: p.body@, ctype: p.content_type@ }] },
@@ -224,7 +225,7 @@ pub proof fn theorem_response_roundtrip_single(v: Seq<char>, code: i16, reason: 
             if i < hs.len() { assert(all[i] == hs[i]); } else { assert(all[i] == framing(list)[i - hs.len()]); }
         }
     }
-    lemma_resp_read_headers(all, x_end, 1, st1);
+    lemma_resp_read_headers(all, x_end, 1, st1, (utf8_bytes(sl) + crlf_b()).len() as int, data.len() as int);
     assert(Seq::<HV>::empty() + all =~= all);
     let st2 = with_headers(st1, all);
     // the blank line, then the body
